@@ -293,7 +293,7 @@ func TestVerifReplay(t *testing.T) {
 	ob, _ := json.MarshalIndent(map[string]interface{}{"Replace": repl}, "", " ")
 	ovPath := filepath.Join(dir, "overlay.json")
 	os.WriteFile(ovPath, ob, 0o644)
-	cmdline := fmt.Sprintf("cd %s && VRT_MODEL=%s GOFLAGS=-mod=mod GOPROXY=off GOSUMDB=off GOTOOLCHAIN=local go test -vet=off -count=1 -timeout 120s -overlay %s -run '^TestVerifReplay$' ./%s/", repoDir(), modelPath, ovPath, hs.Pkg)
+	cmdline := fmt.Sprintf("cd %s && GOFLAGS=-mod=mod GOPROXY=off GOSUMDB=off GOTOOLCHAIN=local go test -c -vet=off -overlay %s -o %s/replay.test ./%s/ && cd %s && VRT_MODEL=%s ./replay.test -test.v -test.count=1 -test.timeout 120s -test.run '^TestVerifReplay$'; rc=$?; rm -f replay.test; exit $rc", repoDir(), ovPath, dir, hs.Pkg, dir, modelPath)
 	os.WriteFile(filepath.Join(dir, "cmd.sh"), []byte("#!/bin/sh\n"+cmdline+"\n"), 0o755)
 	c := exec.Command("sh", "-c", cmdline)
 	out, _ := c.CombinedOutput()
@@ -498,7 +498,8 @@ func validateWitnesses(l *Loaded, id string, todo []HarnessSpec, results []*Harn
 		ob, _ := json.Marshal(map[string]interface{}{"Replace": repl})
 		ovPath := filepath.Join(dir, "overlay_"+strings.ReplaceAll(pkg, "/", "_")+".json")
 		os.WriteFile(ovPath, ob, 0o644)
-		cmdline := fmt.Sprintf("cd %s && GOFLAGS=-mod=mod GOPROXY=off GOSUMDB=off GOTOOLCHAIN=local go test -v -vet=off -count=1 -timeout 300s -overlay %s -run '^TestVerifWitness$' ./%s/", repoDir(), ovPath, pkg)
+		bin := filepath.Join(dir, "witness_"+strings.ReplaceAll(pkg, "/", "_")+".test")
+		cmdline := fmt.Sprintf("cd %s && GOFLAGS=-mod=mod GOPROXY=off GOSUMDB=off GOTOOLCHAIN=local go test -c -vet=off -overlay %s -o %s ./%s/ && cd %s && %s -test.v -test.count=1 -test.timeout 300s -test.run '^TestVerifWitness$'; rm -f %s", repoDir(), ovPath, bin, pkg, dir, bin, bin)
 		out, _ := exec.Command("sh", "-c", cmdline).CombinedOutput()
 		os.WriteFile(filepath.Join(dir, "output_"+strings.ReplaceAll(pkg, "/", "_")+".txt"), out, 0o644)
 		seen := 0
